@@ -73,7 +73,7 @@ func c10Exec(path histPath, alphabet []string) func(hist []int) (string, string,
 				e.ts = tally.VerifNewTestScopeOpts(tally.ScopeOptions{Prefix: "p", Tags: tags, SanitizeOptions: san}, 1)
 				e.root = e.ts
 			default:
-				e.rec = &Recorder{NoPoints: true}
+				e.rec = &Recorder{NoPoints: true, NoCaps: path == pathCached}
 				o := scopeOpts(e.rec, path == pathCached, false)
 				o.Prefix, o.Tags, o.SanitizeOptions = "p", tags, san
 				if sep != "." {
